@@ -22,7 +22,7 @@ ASSUMPTIONS = ['supplied matrices are rotations (orthogonal, det +1) up to round
 def plan(tier):
     q = tier == 'quick'
     return [('trsurf', 300 if q else 6000, {}), ('trcl', 120 if q else 2500, {}), ('implicit', 80 if q else 1500, {}),
-            ('fill', 80 if q else 1500, {}), ('trmodel', 600 if q else 15000, {})]
+            ('fill', 80 if q else 1500, {}), ('trmodel', 600 if q else 15000, {}), ('trnorm', 500 if q else 12000, {})]
 
 
 def search_plan(tier, disagreements):
@@ -36,9 +36,97 @@ def _known(d, res):
     return None
 
 
+def trnorm_case(seed, rng, ctx):
+    """normalize_transform (matrix completion 3/5/6/9 entries, J placeholders, adjust_matrix, m = ±1) vs the model"""
+    import struct
+    from t4_geom_convert.Kernel.Transformation.Transformation import normalize_transform
+    m, cls = G.random_motion(rng)
+    b = list(m.b)
+    J = None
+    kind = rng.choice(['full', 'full', 'full13', 'm-1', 'three', 'empty', 'rows12', 'rows23', 'rows13', 'cols12', 'cols23',
+                       'cols13', 'row1', 'row2', 'row3', 'col1', 'col2', 'five_a', 'five_b', 'five_c', 'bad4', 'six_short'])
+    if kind == 'full':
+        e = b
+    elif kind == 'full13':
+        e = b + [1.0]
+    elif kind == 'm-1':
+        e = b + [-1.0]
+    elif kind == 'three':
+        e = []
+    elif kind == 'empty':
+        e = None
+    elif kind == 'rows12':
+        e = b[:6] + [J] * 3
+    elif kind == 'six_short':
+        e = b[:6]
+    elif kind == 'rows23':
+        e = [J] * 3 + b[3:]
+    elif kind == 'rows13':
+        e = b[:3] + [J] * 3 + b[6:]
+    elif kind == 'cols12':
+        e = [b[0], b[1], J, b[3], b[4], J, b[6], b[7], J]
+    elif kind == 'cols23':
+        e = [J, b[1], b[2], J, b[4], b[5], J, b[7], b[8]]
+    elif kind == 'cols13':
+        e = [b[0], J, b[2], b[3], J, b[5], b[6], J, b[8]]
+    elif kind in ('row1', 'row2', 'row3'):
+        i = int(kind[-1]) - 1
+        e = [J] * 9
+        e[3 * i:3 * i + 3] = b[3 * i:3 * i + 3]
+    elif kind in ('col1', 'col2'):
+        i = int(kind[-1]) - 1
+        e = [J] * 9
+        for r in range(3):
+            e[3 * r + i] = b[3 * r + i]
+    elif kind == 'five_a':
+        e = b[:4] + [J, J, b[6], J, J]
+    elif kind == 'five_b':
+        e = [J, b[1], J, b[3], b[4], b[5], J, b[7], J]
+    elif kind == 'five_c':
+        e = [J, J, b[2], J, J, b[5], b[6], b[7], b[8]]
+    else:  # bad4: four values
+        e = b[:4] + [J] * 5
+    tr = [] if e is None else list(m.o) + e
+    if rng.random() < 0.1 and len(tr) > 3:      # slightly non-orthogonal input (rounded to 4 digits)
+        tr = tr[:3] + [None if x is None else round(x, 4) for x in tr[3:]]
+    try:
+        code = [float(x) for x in normalize_transform(list(tr))]
+    except Exception as ex:  # noqa
+        code = ('error', type(ex).__name__)
+    toks = ' '.join('j' if x is None else repr(float(x)) for x in tr)
+    resp = ctx['drv'].ask('trnorm ' + toks) if tr else ctx['drv'].ask('trnorm')
+    fails = []
+    rp = {'tr': tr}
+    key = h(tuple(tr))
+    if resp.startswith('ok error'):
+        if not isinstance(code, tuple):
+            fails.append(fail('disagreement', 'normalize_transform(%r): model %s / code %r' % (tr, resp, code), {'stream': 'trnorm'}, rp))
+    elif not resp.startswith('ok'):
+        fails.append(fail('disagreement', 'driver: ' + resp, {'stream': 'trnorm'}, rp))
+    else:
+        model = [struct.unpack('<d', struct.pack('<Q', int(x)))[0] for x in resp.split()[1:]]
+        if isinstance(code, tuple) or len(model) != len(code) or any(abs(a - c) > 1e-9 for a, c in zip(model, code)):
+            fails.append(fail('disagreement', 'normalize_transform(%r): model %r / code %r' % (tr, model, code), {'stream': 'trnorm'}, rp))
+        elif kind not in ('bad4',) and len(code) == 12:
+            # spec: the completed matrix is a proper rotation and reproduces every supplied entry
+            mat = code[3:]
+            rows = [mat[0:3], mat[3:6], mat[6:9]]
+            orth = max(abs(sum(rows[i][k] * rows[j][k] for k in range(3)) - (1.0 if i == j else 0.0)) for i in range(3) for j in range(3))
+            det = (rows[0][0] * (rows[1][1] * rows[2][2] - rows[1][2] * rows[2][1]) - rows[0][1] * (rows[1][0] * rows[2][2] - rows[1][2] * rows[2][0])
+                   + rows[0][2] * (rows[1][0] * rows[2][1] - rows[1][1] * rows[2][0]))
+            supplied = max([abs(a - c) for a, c in zip(tr[3:12], mat) if a is not None] or [0.0])
+            if orth > 1e-6 or (det < 0 and cls != 'improper') or supplied > 2e-4:
+                fails.append(fail('violation', 'TR card %r is completed to %r: orthogonality defect %.2e, det %.3f, supplied entries '
+                                  'reproduced to %.2e' % (tr, mat, orth, det, supplied), {'stream': 'trnorm', 'class': 'completion', 'kind': kind}, rp))
+    return dict(hashes=[key], nontrivial_hashes=[key] if len(tr) > 3 else [], dist={'trnorm:' + kind: 1, 'trnorm:rot-' + cls: 1},
+                sample={'tr': tr, 'code': code if isinstance(code, tuple) else code[:12]}, failures=fails)
+
+
 def run_case(stream, seed, ctx, params):
     rng = random.Random(seed)
     npts = params.get('npts', 250)
+    if stream == 'trnorm':
+        return trnorm_case(seed, rng, ctx)
     if stream == 'trmodel':
         # Lean model of transformation() + conversion vs the code, one transformed card (tori excluded: the
         # code classifies their axis with a tolerance, the model with equality)
@@ -123,5 +211,14 @@ def run_case(stream, seed, ctx, params):
 
 
 def replay(payload, ctx):
+    p = payload.get('payload') or {}
+    if 'tr' in p and 'mnemonic' not in p:
+        from t4_geom_convert.Kernel.Transformation.Transformation import normalize_transform
+        try:
+            code = normalize_transform(list(p['tr']))
+        except Exception as ex:  # noqa
+            code = 'raises %s: %s' % (type(ex).__name__, ex)
+        toks = ' '.join('j' if x is None else repr(float(x)) for x in p['tr'])
+        return {'code': repr(code), 'model': ctx['drv'].ask('trnorm ' + toks)}
     from . import c02
     return c02.replay(payload, ctx)
